@@ -202,7 +202,8 @@ pub fn funnel(rng: &mut Rng) -> (usize, Vec<(usize, usize)>, &'static str) {
     }
     if rng.chance(1, 2) {
         // make defenders attack each other a bit so that the semantics are not trivial
-        for i in 0..pool.len() / 2 {
+        // at most 3 mutually attacking pairs: 2^pairs preferred extensions are enumerated by ID
+        for i in 0..(pool.len() / 2).min(3) {
             atts.push((pool[2 * i], pool[2 * i + 1]));
             atts.push((pool[2 * i + 1], pool[2 * i]));
         }
